@@ -316,6 +316,9 @@ def rule_defs(ctx, R):
                         tracked.setdefault(l, "line count")
         if R.anchor(sorted(tracked.values()) == ["line count", "line start"], "newline_vars", "the line counter and the line-start index (found %s)" % sorted(tracked.values())):
             for l, what in sorted(tracked.items()):
+                init = [roles.of_origin(org.of_rvalue(d[3]["r"], d[1], d[2])) for d in vars_.defs.get(l, []) if d[0] == "assign" and d[1] not in M.loop]
+                R.check(init == ["K0"], "parse:newline:init:%s" % what.replace(" ", "_"), "the %s starts at 0 (the first line is reported as 1, its first character as column 0): %s" % (what, init))
+            for l, what in sorted(tracked.items()):
                 for d in vars_.defs.get(l, []):
                     if d[1] in M.loop:
                         R.check(not reaches_without(cfg, [M.head], d[1], cut_edges=nl_edges), "parse:newline:only:%s" % what.replace(" ", "_"), "the %s changes only on a line feed" % what, (d[3].get("span") or {}).get("at"))
@@ -402,6 +405,16 @@ def rule_total(ctx, R):
 
 
 def rule_tables(ctx, R):
+    # a heart is recognised by equality with an entry of the heart table (the lookup closure compares, nothing else)
+    pb_ = ctx.fb.bodies.get(PARSE)
+    if pb_ is not None:
+        pos_clos = []
+        for c_ in ctx.fb.closures_of(pb_):
+            cr_ = Roles(c_, ctx.fb, param_roles={i: "P%d" % i for i in range(1, c_.argc + 1)})
+            cc_ = normal_cfg(c_)
+            rets_ = sorted({cr_.of_origin(cr_.org.of_place({"l": 0, "proj": []}, r_, "t")) for r_ in cc_.returns})
+            pos_clos.append(rets_)
+        R.check(pos_clos == [["(P2 Eq UPVAR:c)"]] or pos_clos == [["(UPVAR:c Eq P2)"]], "tables:heart_lookup", "the heart lookup compares each table entry with the current character for equality: %s" % pos_clos, pb_.span)
     # the Hangul syllable block: exactly U+AC00 ..= U+D7A3 (filler syllables are counted and kept in the raw text;
     # anything else, including the Jamo Extended-B block right behind it, is not a syllable)
     from . import evalo
